@@ -131,30 +131,6 @@ func checkState(s *drive.Shard, m *model.Collection, pool []uuid.UUID) error {
 	return nil
 }
 
-// strayVerdict turns recorded use-after-transaction accesses into either the
-// catalogued defect D4 (accesses through a write transaction that was rolled
-// back: pipeline stages of a failed batch outliving it) or an error.
-func strayVerdict(s *drive.Shard) error {
-	strays := s.Proxy.Strays()
-	var other []drive.Stray
-	d4 := 0
-	for _, st := range strays {
-		if st.TxWrite && !st.TxOK {
-			d4++
-		} else {
-			other = append(other, st)
-		}
-	}
-	if d4 > 0 {
-		vt.R().Known("D4", "bucket access after rollback of a failed write batch", "pipeline stages of a failed write batch keep using the rolled-back transaction")
-		vt.R().Count("d4_stray_accesses", int64(d4))
-	}
-	if len(other) == 0 {
-		return nil
-	}
-	return fmt.Errorf("%d storage accesses after the end of their transaction (first: %s on bucket %s, tx write=%v committed=%v)\n%s", len(other), other[0].Op, other[0].Bucket, other[0].TxWrite, other[0].TxOK, other[0].Stack)
-}
-
 func execCase(h gen.History) (res vt.Result) {
 	rec := vt.R()
 	dir, cleanup := drive.CaseDir()
@@ -279,13 +255,13 @@ func execCase(h gen.History) (res vt.Result) {
 		if failedWrite {
 			drive.Quiesce(baseGoroutines)
 		}
-		if err := strayVerdict(s); err != nil {
+		if err := drive.StrayVerdict(s); err != nil {
 			return fail(i, st, "%v", err)
 		}
 		if err := checkState(s, m, pool); err != nil {
 			return fail(i, st, "%v", err)
 		}
-		if err := strayVerdict(s); err != nil {
+		if err := drive.StrayVerdict(s); err != nil {
 			return fail(i, st, "during reads: %v", err)
 		}
 	}
